@@ -581,6 +581,7 @@ int main(int argc, char **argv)
             cx_env_clear();
             cx_env_set("HOME", "/home/user"); cx_env_set("A", "valueA"); cx_env_set("FOO", "foo bar"); cx_env_set("TMPDIR", "tmp");
             cx_sim_output = vh_coin(50) ? NULL : "out put\n";
+            cx_sim_cat = vh_coin(40);
             if ((kind == K_BYTES || kind == K_MUT) && vh_coin(10)) { cx_env_set("TMPDIR", "no/such/dir"); vh_count("tmpdir_missing_cases", 1); }   /* temp file creation fails */
             cx_rand_state = vh_mix(vh_seed, (uint64_t) vh_case_idx);
 
@@ -601,7 +602,7 @@ int main(int argc, char **argv)
                 { int bq = 0; for (size_t k = 0; k < f->data.n; k++) if (f->data.b[k] == '`' && ++bq > 40) f->data.b[k] = 'q'; }
                 cx_files_write_all();
                 bytes_fds_before = cx_fd_count(); bytes_may_spawn = files_may_spawn();
-                cx_fgets_budget = (files_total_lines() + 10) * 64 + 1000;
+                cx_fgets_budget = (files_total_lines() + 10) * (cx_sim_cat ? 600 : 64) + 1000;
                 tmp_dirty = 1;
                 vh_op("BYTES: main.cfg %zu bytes: %s", f->data.n, vh_q(f->data.b, (long) (f->data.n > 100 ? 100 : f->data.n)));
                 /* a main file that may include itself is outside the budget reasoning unless recursion is refused: count it */
@@ -617,7 +618,7 @@ int main(int argc, char **argv)
                 keep_magic_lines_short();
                 cx_files_write_all();
                 bytes_fds_before = cx_fd_count(); bytes_may_spawn = files_may_spawn();
-                cx_fgets_budget = (files_total_lines() + 10) * 64 + 1000;
+                cx_fgets_budget = (files_total_lines() + 10) * (cx_sim_cat ? 600 : 64) + 1000;
                 tmp_dirty = 1;
                 vh_op("MUT: %d files, main.cfg %zu bytes: %s", cx_nfiles, cx_files[0].data.n, vh_q(cx_files[0].data.b, (long) (cx_files[0].data.n > 100 ? 100 : cx_files[0].data.n)));
                 balance_twice(scen_parse_main, mutation_cyclic ? "mutated tree (with a cyclic %include)" : "mutated tree");
